@@ -657,6 +657,21 @@ func checkMain(args []string) int {
 		}
 		if ec == 1 {
 			fmt.Printf("%s\n    %s\n", rf.Signature, rf.Detail)
+			switch rf.Spec.Scenario {
+			case "S-TURN", "S-CONC", "S-CRASH-RAND", "S-CRASH-ENUM", "S-TIME":
+				// pass-through: the same schedule, one call at a time, on a
+				// real temporary directory (DESIGN 7.1 b)
+				rerr := exec.Command(self, "replay", "--real", path).Run()
+				rc := 0
+				if ee, ok := rerr.(*exec.ExitError); ok {
+					rc = ee.ExitCode()
+				}
+				if rc == 1 {
+					fmt.Printf("    (replayed on the real filesystem through the pass-through back end: reproduced)\n")
+				} else {
+					fmt.Printf("    (replay on the real filesystem did NOT reproduce it (exit %d): possible disk-model discrepancy, inspect before believing)\n", rc)
+				}
+			}
 			fmt.Printf("VIOLATION property=%s replay=%s\n", *prop, path)
 			nviol++
 			code = 1
